@@ -167,12 +167,15 @@ def replayer(bld):
             spec = {'what': 'fp', 'n': n, 'nb': c['nb'], 'it': 4, 'seed': 7, 'fptrack': c['fptrack'], 'dt': c['dt'], 'pmax': 6.5, 'pos': [float(x) for x in c['pos']] * (400 if c['fptrack'] == 3 else 1)}
             o = native_run(bld, spec, 'c15'); qs = o['posout'] if isinstance(o['posout'][0], list) else [o['posout']]
             if 'want_y' in c:
-                # damping target: mean of many native draws vs the expected mean (noise has zero mean)
-                mean = sum(q[1] for q in qs) / len(qs); e1 = 0.01
-                pmin, pmax = -6.0, 6.5; yc = ((pmin + pmax) / (pmin - pmax) + 1) * (n - 1) / 2
-                want = yc + (1 - e1) * (float(c['pos'][1]) - yc); got0 = (1 - e1) * float(c['pos'][1])
-                sd = math.sqrt(2 * e1) / ((pmax - pmin) / (n - 1)) / math.sqrt(len(qs))
-                return (abs(mean - want) > 5 * sd and abs(mean - got0) < abs(mean - want), 'native mean of %d draws %.4f; damping toward the zero bin predicts %.4f, toward index 0 predicts %.4f (5 sigma of the mean = %.4f)' % (len(qs), mean, want, got0, 5 * sd))
+                # exact replay: the harness reports the draw the step is about to make (copies of the map's generator and distribution) and the decrement
+                nz = o['noise'] if isinstance(o['noise'][0], list) else [o['noise']]
+                pmin, pmax = -6.0, 6.5; yc = f32(((pmin + pmax) / (pmin - pmax) + 1) * (n - 1) / 2); y0 = f32(float(c['pos'][1])); worst = (0.0, None)
+                for q, (xi, e1) in zip(qs, nz):
+                    want = y0 - ((y0 - yc) * e1 + xi)
+                    if not (1 <= want <= n - 1): continue
+                    d = abs(q[1] - want)
+                    if d > worst[0]: worst = (d, (q[1], want, xi))
+                return (worst[0] > 1e-4, 'native stochastic steps from y=%s with the recorded draws: largest deviation from y - ((y - yc) e1 + xi), yc = zero-energy bin %.4f: %.3g %s' % (y0, yc, worst[0], worst[1]))
             out = [q for q in qs if not (0 <= q[0] <= n - 1 and 0 <= q[1] <= n - 1)]
             if c['fptrack'] == 3:
                 # the noise draw cannot be injected natively (private PRNG): start on the edge the model leaves through and look for an escape
